@@ -61,7 +61,8 @@ def behaviour(draw, typ, n_ent, rt=False):
 @st.composite
 def scenarios(draw, max_sims=5, min_sims=1, types=TYPES, allow_mem=True, allow_weak=True,
               allow_groups=True, max_until=8, debug_ok=True, sensitive=False, max_conns=8,
-              lazy=None, cache=None, future_ok=True, allow_sync=True, parallel=True, late_initial=True):
+              lazy=None, cache=None, future_ok=True, allow_sync=True, parallel=True, late_initial=True,
+              script_ok=True):
     n = draw(st.integers(min_sims, max_sims))
     sids = [f"S{i}" for i in range(n)]
     paths = {}
@@ -164,6 +165,29 @@ def scenarios(draw, max_sims=5, min_sims=1, types=TYPES, allow_mem=True, allow_w
     }
     if debug_ok and draw(st.integers(0, 7)) == 0:
         scn["world"]["debug"] = True
+    if script_ok:
+        # how the scenario script is written (all documented usage): connecting inside still open group blocks,
+        # World.get_data() before the run, the progress displays of run()
+        scr = draw(st.integers(0, 19))
+        if scr == 0:
+            scn["script"] = {"connect_early": True}
+        elif scr == 1:
+            scn["script"] = {"pre_get_data": True}
+        elif scr == 2:
+            scn["script"] = {"connect_early": True, "pre_get_data": True}
+        elif scr == 3:
+            scn["run"]["print_progress"] = "individual"
+        elif scr == 4:
+            scn["run"]["print_progress"] = True
+            scn["run"]["print_progress_default"] = draw(st.booleans())
+        # value shapes: any JSON value is valid data (objects with changing key sets, falsy values incl. an explicit
+        # None, small domains with repeats).  Not in the regimes of the open findings F10 (pulled initial data) and
+        # F12 (weak connections), whose signatures identify values by their unique tokens.
+        if not any(c.get("weak") or c.get("init") for c in conns):
+            for sp in sims:
+                vs = draw(st.integers(0, 11))
+                if vs < 4:
+                    sp["beh"]["vstyle"] = ["dict", "falsy", "small", "list"][vs]
     return scn
 
 
